@@ -1,5 +1,155 @@
-(* BuildIO.v — stub: replaced by the real decoder/runner when the property is built. *)
-From Coq Require Import List.
-From M Require Import Sx.
+(* BuildIO.v — decoding of construction-script cases and encoding of the observation
+   (structure of the machine built by each of the two scripts + a history run on it). *)
+From Coq Require Import List Arith Bool.
+From M Require Import Sx Base Flat FlatIO Build.
 Import ListNotations.
-Definition run_build_case (x : sx) : sx := L [N 0].
+
+Definition d_cbref (x : sx) : option cbref :=
+  match x with
+  | L [N 0; N c] => Some (ByName c) | L [N 1; N c] => Some (ByRef c)
+  | L [N 2; N c] => Some (ByPath c) | L [N 3; N c] => Some (ByProp c)
+  | _ => None
+  end.
+Definition d_cbspec (x : sx) : option cbspec :=
+  match x with
+  | L [N 0] => Some CNone
+  | L [N 1; r] => do r' <- d_cbref r; Some (COne r')
+  | L [N 2; l] => do l' <- d_list d_cbref l; Some (CList l')
+  | _ => None
+  end.
+Definition d_sref (x : sx) : option sref :=
+  match x with
+  | L [N 0; N n] => Some (RName n) | L [N 1; N n] => Some (REnum n) | L [N 2; N n] => Some (RObj n)
+  | _ => None
+  end.
+Definition d_sform (x : sx) : option sform :=
+  match x with
+  | L [N 0; N n] => Some (SName n)
+  | L [N 1; N n] => Some (SEnum n)
+  | L [N 2; N n; en; ex; fin; ign] =>
+      do en' <- d_cbspec en; do ex' <- d_cbspec ex; do f <- d_bool fin;
+      do i <- d_option (d_option d_bool) ign; Some (SDict n en' ex' f i)
+  | L [N 3; N n; en; ex; fin; ign] =>
+      do en' <- d_cbspec en; do ex' <- d_cbspec ex; do f <- d_bool fin;
+      do i <- d_option d_bool ign; Some (SObj n en' ex' f i)
+  | _ => None
+  end.
+Definition d_srcspec (x : sx) : option srcspec :=
+  match x with
+  | L [N 0] => Some SrcWild
+  | L [N 1; r] => do r' <- d_sref r; Some (SrcOne r')
+  | L [N 2; l] => do l' <- d_list d_sref l; Some (SrcMany l')
+  | _ => None
+  end.
+Definition d_dstspec (x : sx) : option dstspec :=
+  match x with
+  | L [N 0] => Some DstSame
+  | L [N 1; r] => do r' <- d_sref r; Some (DstTo r')
+  | L [N 2] => Some DstNone
+  | _ => None
+  end.
+Definition d_tcbs (x : sx) : option tcbs :=
+  match x with
+  | L [c; u; b; a; p] =>
+      do c' <- d_cbspec c; do u' <- d_cbspec u; do b' <- d_cbspec b; do a' <- d_cbspec a;
+      do p' <- d_cbspec p; Some (mkTcbs c' u' b' a' p')
+  | _ => None
+  end.
+Definition d_tspec (x : sx) : option tspec :=
+  match x with
+  | L [N trig; s; d; c] =>
+      do s' <- d_srcspec s; do d' <- d_dstspec d; do c' <- d_tcbs c; Some (mkT trig s' d' c')
+  | _ => None
+  end.
+Definition d_tform (x : sx) : option tform :=
+  match x with
+  | L [N 0; t] => do t' <- d_tspec t; Some (TPos t')
+  | L [N 1; t] => do t' <- d_tspec t; Some (TKw t')
+  | _ => None
+  end.
+Definition d_oarg (x : sx) : option oarg :=
+  match x with
+  | L [N 0] => Some ONone
+  | L [N 1; r] => do r' <- d_cbref r; Some (OSingle r')
+  | L [N 2; l] => do l' <- d_list d_cbspec l; Some (OList l')
+  | _ => None
+  end.
+Definition d_ospec (x : sx) : option ospec :=
+  match x with
+  | L [sts; N trig; lp; incl; c; u; b; a; p] =>
+      do sts' <- d_option (d_list d_sref) sts; do lp' <- d_bool lp; do incl' <- d_bool incl;
+      do c' <- d_oarg c; do u' <- d_oarg u; do b' <- d_oarg b; do a' <- d_oarg a; do p' <- d_oarg p;
+      Some (mkO sts' trig lp' incl' c' u' b' a' p')
+  | _ => None
+  end.
+Definition d_filt {A} (d : sx -> option A) (x : sx) : option (filt A) :=
+  match x with
+  | L [N 0] => Some FWild
+  | L [N 1; l] => do l' <- d_list d l; Some (FList l')
+  | _ => None
+  end.
+Definition d_op (x : sx) : option op :=
+  match x with
+  | L [N 0; l; en; ex; ign; fin] =>
+      do l' <- d_list d_sform l; do en' <- d_cbspec en; do ex' <- d_cbspec ex;
+      do i <- d_option d_bool ign; do f <- d_bool fin; Some (AddStates l' en' ex' i f)
+  | L [N 1; r] => do r' <- d_sref r; Some (SetInitial r')
+  | L [N 2; t] => do t' <- d_tspec t; Some (AddTransition t')
+  | L [N 3; l] => do l' <- d_list d_tform l; Some (AddTransitions l')
+  | L [N 4; o] => do o' <- d_ospec o; Some (AddOrdered o')
+  | L [N 5; N trig; fs; fd] =>
+      do fs' <- d_filt d_sref fs; do fd' <- d_filt (d_option d_sref) fd;
+      Some (RemoveTransition trig fs' fd')
+  | L [N 6] => Some AddModel
+  | _ => None
+  end.
+Definition d_hdr (x : sx) : option hdr :=
+  match x with
+  | L [hsm; auto; ign; send; pe; bsc; asc; fin; oe; ofi] =>
+      do hsm' <- d_bool hsm; do auto' <- d_bool auto; do ign' <- d_option d_bool ign;
+      do send' <- d_bool send; do pe' <- d_cbspec pe; do bsc' <- d_cbspec bsc; do asc' <- d_cbspec asc;
+      do fin' <- d_cbspec fin; do oe' <- d_cbspec oe; do ofi' <- d_cbspec ofi;
+      Some (mkHdr hsm' auto' ign' send' pe' bsc' asc' fin' oe' ofi')
+  | _ => None
+  end.
+
+Definition e_trans (t : trans) : sx :=
+  L [N (t_src t); e_option e_nat (t_dst t); e_list e_nat (t_prepare t);
+     e_list (e_pair e_nat e_bool) (t_conds t); e_list e_nat (t_before t); e_list e_nat (t_after t)].
+Definition e_sdef (p : state * sdef) : sx :=
+  L [N (fst p); e_list e_nat (s_enter (snd p)); e_list e_nat (s_exit (snd p)); e_bool (s_final (snd p));
+     e_option e_bool (s_ignore (snd p))].
+Definition e_berr (e : berr) : sx := match e with EKey => N 0 | EValue => N 1 | EAttr => N 2 end.
+
+(* machine.states, per trigger the source-keyed transition lists, machine.initial,
+   get_triggers per state, the model's state *)
+Definition structure (b : bm) : sx :=
+  L [e_list e_sdef (b_states b);
+     e_list (e_pair e_nat (e_list (e_pair e_nat (e_list e_trans)))) (b_events b);
+     e_option e_nat (b_initial b);
+     e_list (fun s => L [N s; e_list e_nat (get_triggers b s)]) (state_names b);
+     e_option e_nat (b_model b)].
+
+Definition observe (h : hdr) (ev : env) (hs : list hcall) (ctor_len : nat) (ops : list op) : sx :=
+  match exec_idx ops (empty h) 0 with
+  | (b, None) =>
+      L [N 1; structure b;
+         match b_model b with
+         | Some s0 => L (run_history (flatten b) ev 0 hs 0 s0)
+         | None => L []
+         end]
+  | (b, Some (e, i)) =>
+      L [N 0; e_berr e; N i; if Nat.leb ctor_len i then L [structure b] else L []]
+  end.
+
+(* case := [hdr; [ctor_len_A; ops_A]; [ctor_len_B; ops_B]; env; history] *)
+Definition run_build_case (x : sx) : sx :=
+  match x with
+  | L [hx; L [N la; ax]; L [N lb; bx]; evx; hsx] =>
+      match d_hdr hx, d_list d_op ax, d_list d_op bx, d_env evx, d_list d_call hsx with
+      | Some h, Some a, Some b, Some ev, Some hs =>
+          L [N 1; observe h ev hs la a; observe h ev hs lb b]
+      | _, _, _, _, _ => L [N 0]
+      end
+  | _ => L [N 0]
+  end.
